@@ -171,7 +171,9 @@ Print Assumptions C15_error_head_resolves.
    c of a function (at the index idx that designates it), from a state whose byte count is exact, every
    instruction pushed (address a, recorded location l) lies in the byte range of the run and is attributed: the
    INNERMOST process_card run r that contains a - c itself or a card below it, each such run being a real
-   execution of process_card on that card at the index that designates it (run_ok) - has l = the index of r's
+   execution of process_card on that card at the index that designates it, and a part of this computation: its
+   start state has recorded at least the trace of s, all that its end state has recorded is in the trace of s'
+   (run_ok) - has l = the index of r's
    card, or (finding N-C15-4) r's card is While / IfTrue / IfFalse / IfElse and l is the index of its child 1
    (own_loc); a CallFunction instruction is the own instruction of a Call / DynamicCall card and carries exactly
    that card's index. The list of runs is a ghost of the proof: it is existentially quantified, anchored to
@@ -185,7 +187,7 @@ Theorem C15_card_owns_its_instructions :
       cs_trace s' = map fst newx ++ cs_trace s /\
       CompilerOwner.addrs (cs_code s') (cs_pc s') =
         map CompilerOwner.xaddr newx ++ CompilerOwner.addrs (cs_code s) (cs_pc s) /\
-      CompilerOwner.runs_in cards (cs_ns s) (cs_fn s) (cs_pc s) (cs_pc s') runs /\
+      CompilerOwner.runs_in cards (cs_ns s) (cs_fn s) (cs_pc s) (cs_pc s') (cs_trace s) (cs_trace s') runs /\
       Forall (CompilerOwner.attr runs [] (cs_ns s) (cs_fn s) (cs_pc s) (cs_pc s')) newx.
 Proof.
   intros cards c idx ctx s s' Hi Hat Hpc Hrun Hg.
